@@ -14,6 +14,8 @@ from .values import lit_axioms
 
 Z3_TIMEOUT_MS = int(os.environ.get("PYVC_Z3_TIMEOUT_MS", "30000"))
 CVC5_TIMEOUT_S = int(os.environ.get("PYVC_CVC5_TIMEOUT_S", "60"))
+Z3_RETRY_TIMEOUT_MS = int(os.environ.get("PYVC_Z3_RETRY_TIMEOUT_MS", str(min(Z3_TIMEOUT_MS, 20000))))
+RETRY_SEEDS = (7, 23)
 CVC5 = "/usr/bin/cvc5"
 
 
@@ -27,12 +29,15 @@ def to_smt2(obl):
     return s.to_smt2()
 
 
-def _run_z3(smt2, timeout_ms):
+def _run_z3(smt2, timeout_ms, seed=None):
     t0 = time.time()
     try:
         ctx = z3.Context()
         s = z3.Solver(ctx=ctx)
         s.set("timeout", timeout_ms)
+        if seed is not None:
+            s.set("random_seed", seed)
+            s.set("smt.random_seed", seed)
         s.from_string(smt2)
         r = s.check()
         if r == z3.unsat:
@@ -69,6 +74,15 @@ def _work(item):
     r, t, info = _run_z3(smt2, Z3_TIMEOUT_MS)
     backend = "z3"
     agree = None
+    if r in ("unknown", "error"):
+        # quantifier instantiation is sensitive to incidental naming: before giving up, two more attempts with other random seeds
+        # (an obligation that normally takes a fraction of a second must not turn a check undecided because one run diverged)
+        for seed in RETRY_SEEDS:
+            r1, t1, info1 = _run_z3(smt2, Z3_RETRY_TIMEOUT_MS, seed)
+            t += t1
+            if r1 in ("unsat", "sat"):
+                r, info, backend = r1, info1, f"z3(seed={seed})"
+                break
     if r in ("unknown", "error"):
         r2, t2, info2 = _run_cvc5(smt2, CVC5_TIMEOUT_S)
         if r2 == "unsat":
